@@ -188,3 +188,301 @@ def check_C26(tier, replay=None):
 
 
 CHECKS = {"C26": check_C26}
+
+
+# ============================================================================================= C06
+def _mat_desc(name, frame):
+    return relcase.TableDescription(table_name=name, column_names=[str(c) for c in frame.columns])
+
+
+@safe
+def w_c06(args):
+    """chained pipeline vs. applying each step to the MATERIALISED result of the previous one (both on the
+    real Pandas executor): same acceptance at every call, same table after every accepted call"""
+    case, _ = args
+    be = relreplay._backends()
+    frames = be.frames(case)
+    built = relcase.build(case)
+    kinds = case["kinds"]
+    # stepwise: python stack of materialised frames
+    mstack = [frames["t1"]]
+    stats = collections.Counter()
+    nontrivial = False
+    for i, st in enumerate(case["prog"]):
+        # (a) one-step pipeline over table descriptions of the materialised stack
+        try:
+            if st[0] == "table":
+                new_stack = mstack + [frames[st[1]]]
+                acc = True
+            elif st[0] == "dup":
+                new_stack = mstack + [mstack[-1]]
+                acc = True
+            else:
+                nbin = 2 if st[0] in ("join", "joinc", "concat") else 1
+                srcs = mstack[-nbin:]
+                names = ["m%d" % k for k in range(nbin)]
+                if nbin == 2 and srcs[0] is srcs[1]:
+                    names = ["m0", "m0"]
+                descs = [_mat_desc(n, f) for n, f in zip(names, srcs)]
+                one = relcase.apply_step(descs, st, {})[-1]
+                acc = True
+        except Exception as ex:  # noqa: BLE001
+            acc = False
+            err = "%s: %s" % (type(ex).__name__, str(ex)[:200])
+        if acc != built.accepted[i]:
+            return {"status": "violation", "nontrivial": True, "tag": "acceptance:" + st[0],
+                    "detail": {"step": i, "call": st, "chained_accepts": built.accepted[i], "stepwise_accepts": acc,
+                               "chained_error": built.errors[i]}}
+        if not acc:
+            stats["rejected_both"] += 1
+            continue
+        if st[0] not in ("table", "dup"):
+            try:
+                res = one.eval({n: f for n, f in zip(names, srcs)})
+            except Exception as ex:  # noqa: BLE001
+                return {"status": "skip", "stats": {"stepwise_raised": 1}, "detail": str(ex)[:200]}
+            new_stack = mstack[:-nbin] + [res]
+        mstack = new_stack
+        # (b) the chained pipeline as it stands after this call
+        try:
+            got = built.tops[i].eval(frames)
+        except Exception as ex:  # noqa: BLE001
+            return {"status": "skip", "stats": {"chained_raised": 1}, "detail": str(ex)[:200]}
+        a, b = abs_table(got), abs_table(mstack[-1])
+        ok, why = same_table(a, b, ordered=case["hist"][i]["ordered"])
+        if not ok:
+            return {"status": "violation", "nontrivial": True, "tag": "meaning:" + st[0],
+                    "detail": {"step": i, "call": st, "why": why, "chained": a, "stepwise": b,
+                               "chained_pipeline": str(built.tops[i])}}
+        if i > 0 and st[0] not in ("table", "dup"):
+            nontrivial = nontrivial or _dag_len(built.tops[i]) < _dag_len(built.tops[i - 1]) + 1
+    # MODEL-DRIFT (informational): does the B model predict the DAG the builder really holds?
+    drift = 0
+    if case.get("dag") and all(h["ok"] for h in case["hist"]):
+        drift = 0 if _shape(built.final) == _norm_shape(case["dag"]) else 1
+    stats["model_drift_dag_shape"] = drift
+    stats["simplified_by_builder"] = 1 if nontrivial else 0
+    return {"status": "ok", "nontrivial": nontrivial, "stats": dict(stats)}
+
+
+def _dag_len(ops):
+    n = 1
+    for s in ops.sources:
+        n += _dag_len(s)
+    return n
+
+
+_NODE = {"ExtendNode": "extend", "ProjectNode": "project", "SelectRowsNode": "select_rows", "SelectColumnsNode": "select_columns",
+         "DropColumnsNode": "drop_columns", "RenameColumnsNode": "rename", "OrderRowsNode": "order_rows",
+         "NaturalJoinNode": "join", "ConcatRowsNode": "concat", "TableDescription": "table"}
+
+
+def _shape(ops):
+    k = _NODE.get(ops.node_name, ops.node_name)
+    if k == "table":
+        return ["table", ops.table_name]
+    if k in ("join", "concat"):
+        return [k, _shape(ops.sources[0]), _shape(ops.sources[1])]
+    tg = sorted(ops.ops.keys()) if k in ("extend", "project") else []
+    return [k, tg, _shape(ops.sources[0])]
+
+
+def _norm_shape(d):
+    if d[0] == "table":
+        return ["table", d[1]]
+    if d[0] in ("join", "joinc", "concat"):
+        return ["join" if d[0] == "joinc" else d[0], _norm_shape(d[1]), _norm_shape(d[2])]
+    k = "extend" if d[0] == "wextend" else d[0]
+    return [k, sorted(d[1]), _norm_shape(d[2])]
+
+
+TB = dict(tabcols="MCB_TabCols", colvals="MCB_ColVals")
+C06F = ["extend", "extend2", "wextend", "cols", "order"]
+PLAN_C06 = {
+    "mc": [
+        dict(what="BuilderMeaning/BuilderAcceptance: all 2-call sequences of extend / 2-assignment extend / select / drop / order_rows, <= 1 row",
+             fams=["extend", "extend2", "cols", "order"], rows=1, steps=2, level=1, invariants=BUILDER_LAWS, timeout=200, **TB),
+        dict(what="BuilderMeaning/BuilderAcceptance: all 3-call sequences of 2-assignment extends and order_rows, <= 1 row",
+             fams=["extend2", "order"], rows=1, steps=3, level=1, invariants=BUILDER_LAWS, timeout=300, **TB),
+        dict(what="BuilderMeaning/BuilderAcceptance: all 3-call sequences of extend / select / drop / order_rows, <= 1 row",
+             fams=["extend", "cols", "order"], rows=1, steps=3, level=1, invariants=BUILDER_LAWS, timeout=600, tier=("thorough",), **TB),
+        dict(what="BuilderMeaning: all 2-call sequences incl. windowed extends and limits, <= 2 rows",
+             fams=["extend", "wextend", "cols", "order"], rows=2, steps=2, level=1, invariants=BUILDER_LAWS, timeout=900,
+             tier=("thorough",), **TB),
+        dict(what="deviation model: merge with a re-assigned column ignoring the other assignments (D1) must break BuilderMeaning",
+             fams=["extend2"], rows=1, steps=2, level=1, invariants=BUILDER_LAWS, bdev="BDevMergeCommon",
+             must_violate=("BuilderMeaning",), **TB),
+    ],
+    "emit": [
+        dict(what="all 2-call sequences of extend / 2-assignment extend / select / drop / order_rows, <= 1 row (sampled)",
+             fams=["extend", "extend2", "cols", "order"], rows=1, steps=2, level=1, one_in=40, genbad=True, timeout=200, **TB),
+        dict(what="all 3-call sequences of 2-assignment extends and order_rows, <= 1 row (sampled)",
+             fams=["extend2", "order"], rows=1, steps=3, level=1, one_in=500, timeout=300, **TB),
+    ],
+    "sim": dict(what="random pipelines of 4 calls biased to consecutive extends / selections / orderings",
+                fams=["extend", "extend2", "wextend", "cols", "order", "select_rows", "stack", "binary"],
+                num=(2000, 20000), rows=3, steps=4, genbad=True, **SIMT),
+    "rule": "behaviours of Exec.tla; each is built as one chained pipeline and, independently, step by step over table "
+            "descriptions of the materialised intermediate results; non-trivial = the builder really simplified "
+            "(the DAG did not grow by one node at some call)",
+    "limit": (5000, 50000),
+    "assumptions": ASSUME_REL + ["both sides of the comparison run on the Pandas executor, so executor deviations cancel; a side that "
+                                 "raises at evaluation is counted and not judged (C01/C03 judge executors)"],
+}
+
+
+def check_C06(tier, replay=None):
+    return generic_plan("C06", tier, PLAN_C06, w_c06, replay)
+
+
+CHECKS["C06"] = check_C06
+
+
+# ============================================================================================= C10
+def _perturb(df, col, mode, kind):
+    import numpy
+    import pandas
+    d = df.copy()
+    n = d.shape[0]
+    if mode == "null":
+        d[col] = pandas.Series([None] * n, dtype="str") if kind == "s" else numpy.nan
+    else:
+        if kind == "s":
+            d[col] = pandas.Series(["q%d" % (i % 2) for i in range(n)], dtype="str")
+        else:
+            d[col] = [float(7 + 3 * i) for i in range(n)]
+    return d
+
+
+@safe
+def w_c10(args):
+    """perturb every input column that the CODE's columns_used() does not report: the result must not move
+    (Pandas and SQLite, each against its own unperturbed result); SQL must run on tables restricted to the
+    reported columns; the pipeline rebuilt over narrowed table descriptions must give the same result"""
+    case, _ = args
+    if not all(h["ok"] for h in case["hist"]):
+        return {"status": "skip", "stats": {"has_rejected_step": 1}}
+    be = relreplay._backends()
+    built = relcase.build(case)
+    ops = built.final
+    kinds = case["kinds"]
+    used = {k: set(v) for k, v in ops.columns_used().items()}
+    frames = be.frames(case)
+    ordered = case["hist"][-1]["ordered"]
+    stats = collections.Counter()
+    ref_used = collections.defaultdict(set)
+    for t, c in case.get("used", []):
+        ref_used[t].add(c)
+    for t in used:
+        if used[t] - ref_used[t]:
+            stats["code_reports_more_than_reference"] += 1
+        if ref_used[t] - used[t]:
+            stats["code_reports_less_than_reference"] += 1
+    base = {}
+    try:
+        base["pandas"] = abs_table(ops.eval(frames))
+    except Exception:  # noqa: BLE001
+        stats["pandas_raised"] += 1
+    try:
+        be.load_sqlite(case, frames=frames)
+        base["sqlite"] = abs_table(be.sqlite.read_query(ops))
+    except Exception:  # noqa: BLE001
+        stats["sqlite_raised"] += 1
+    if not base:
+        return {"status": "skip", "stats": dict(stats)}
+    nontrivial = False
+    for t in sorted(used):
+        cols = case["inp"][t]["cols"]
+        for c in cols:
+            if c in used[t]:
+                continue
+            nontrivial = True
+            for mode in ("null", "other"):
+                pf = dict(frames)
+                pf[t] = _perturb(frames[t], c, mode, kinds[c])
+                for b in base:
+                    try:
+                        if b == "pandas":
+                            got = abs_table(ops.eval(pf))
+                        else:
+                            be.load_sqlite(case, frames=pf)
+                            got = abs_table(be.sqlite.read_query(ops))
+                    except Exception as ex:  # noqa: BLE001
+                        return {"status": "violation", "nontrivial": True, "tag": "raise:" + b,
+                                "detail": {"table": t, "column": c, "mode": mode, "backend": b, "reported": {k: sorted(v) for k, v in used.items()},
+                                           "error": "%s: %s" % (type(ex).__name__, str(ex)[:300])}}
+                    ok, why = same_table(got, base[b], ordered=ordered)
+                    stats["perturbations"] += 1
+                    if not ok:
+                        return {"status": "violation", "nontrivial": True, "tag": "influence:" + b,
+                                "detail": {"table": t, "column": c, "mode": mode, "backend": b, "why": why,
+                                           "reported": {k: sorted(v) for k, v in used.items()},
+                                           "base": base[b], "perturbed": got, "pipeline": str(ops)}}
+    # restriction to the reported columns
+    rf = {t: (frames[t][[c for c in case["inp"][t]["cols"] if c in used.get(t, set())]] if t in used else frames[t]) for t in frames}
+    if "sqlite" in base and all(rf[t].shape[1] > 0 for t in used):
+        try:
+            be.load_sqlite(case, frames=rf)
+            got = abs_table(be.sqlite.read_query(ops))
+            ok, why = same_table(got, base["sqlite"], ordered=ordered)
+        except Exception as ex:  # noqa: BLE001
+            ok, why, got = False, "%s: %s" % (type(ex).__name__, str(ex)[:300]), None
+        stats["sql_on_restricted_tables"] += 1
+        if not ok:
+            return {"status": "violation", "nontrivial": True, "tag": "restricted-sql",
+                    "detail": {"why": why, "reported": {k: sorted(v) for k, v in used.items()}, "got": got,
+                               "base": base["sqlite"], "pipeline": str(ops)}}
+    if "pandas" in base and all(rf[t].shape[1] > 0 for t in used):
+        ncase = dict(case)
+        ncase["inp"] = {t: ({"cols": [c for c in tb["cols"] if c in used[t]], "rows": tb["rows"]} if t in used else tb)
+                        for t, tb in case["inp"].items()}
+        nb = relcase.build(ncase)
+        if all(nb.accepted):
+            try:
+                got = abs_table(nb.final.eval(rf))
+                ok, why = same_table(got, base["pandas"], ordered=ordered)
+            except Exception as ex:  # noqa: BLE001
+                ok, why, got = False, "%s: %s" % (type(ex).__name__, str(ex)[:300]), None
+            stats["narrowed_rebuilds"] += 1
+            if not ok:
+                return {"status": "violation", "nontrivial": True, "tag": "narrowed",
+                        "detail": {"why": why, "reported": {k: sorted(v) for k, v in used.items()}, "got": got, "base": base["pandas"]}}
+        else:
+            stats["narrowed_rebuild_not_possible"] += 1
+    # leave the shared connection with the original tables
+    return {"status": "ok", "nontrivial": nontrivial, "stats": dict(stats)}
+
+
+IRR = ["HistOK", "Irrelevance"]
+PLAN_C10 = {
+    "mc": [
+        dict(what="Irrelevance of columns outside the reference Used set: every unary step, one table, <= 1 row", fams=UNARY, rows=1,
+             steps=1, level=1, invariants=IRR, timeout=300, tier=("quick",), **T1),
+        dict(what="Irrelevance of columns outside the reference Used set: every unary step, one table, <= 2 rows", fams=UNARY, rows=2,
+             steps=1, level=1, invariants=IRR, timeout=600, tier=("thorough",), **T1),
+        dict(what="Irrelevance: all 2-call pipelines, one table, <= 1 row", fams=UNARY, rows=1, steps=2, level=1, invariants=IRR,
+             timeout=900, tier=("thorough",), **TB),
+        dict(what="Irrelevance: join/concat of two tables, <= 1 row", fams=["stack", "binary"], rows=1, steps=2, level=1, invariants=IRR,
+             timeout=300, **T12),
+    ],
+    "emit": [
+        dict(what="all 2-call pipelines, one table, <= 1 row (sampled)", fams=UNARY, rows=1, steps=2, level=1, one_in=150, timeout=900,
+             tier=("thorough",), **TB),
+        dict(what="join/concat of two tables, <= 1 row (sampled)", fams=["stack", "binary"], rows=1, steps=2, level=2, one_in=10, **T12),
+    ],
+    "sim": dict(what="random pipelines of 4 calls over 2 tables of <= 3 rows", num=(1500, 15000), rows=3, steps=4, **SIMT),
+    "rule": "behaviours of Exec.tla; for each, every input column the code's columns_used() does not report is set to nulls and to "
+            "other values (Pandas and SQLite must return their unperturbed result), the SQL is run on tables restricted to the "
+            "reported columns, and the pipeline rebuilt over narrowed table descriptions is evaluated on restricted frames; "
+            "non-trivial = at least one column of a used table is unreported",
+    "limit": (3000, 30000),
+    "assumptions": ASSUME_REL + ["each backend is compared with its own unperturbed result, so executor deviations cancel",
+                                 "narrowed rebuilds are possible only when no step names a removed column in a select/drop list"],
+}
+
+
+def check_C10(tier, replay=None):
+    return generic_plan("C10", tier, PLAN_C10, w_c10, replay)
+
+
+CHECKS["C10"] = check_C10
